@@ -345,6 +345,15 @@ var propParallel = hx.Prop[PCase]{
 			}
 		})
 		c.Sessions = rapid.SliceOfN(rapid.SliceOfN(txn, 1, 3), 2, 10).Draw(t, "sessions")
+		if rapid.IntRange(0, 3).Draw(t, "together") > 0 {
+			// in every round all connections also deliver to one mailbox that nobody has delivered to
+			// before: its very first messages arrive at the same instant
+			for si := range c.Sessions {
+				for ti := range c.Sessions[si] {
+					c.Sessions[si][ti].Rcpts = append(c.Sessions[si][ti].Rcpts, fmt.Sprintf("fresh%d@a.test", ti))
+				}
+			}
+		}
 		return c
 	},
 	Run: func(c PCase) *hx.Outcome {
